@@ -1,4 +1,5 @@
 import AlgopyVerif.Proofs.Index
+import AlgopyVerif.Proofs.Setitem
 /-!
 # C13 — shape-manipulating operations act slice-wise like NumPy, with view semantics
 
@@ -15,9 +16,17 @@ expressions).  Theorems, for every `D`, `P`, shape and index expression:
   updates the parent);
 * `sum_axis_nonneg`, `sum_axis_neg`: the axis arithmetic of `UTPM.sum`.
 
+* `index_map_injective`: every basic index expression selects each cell at most once (strides are non-zero and
+  never leave the axis), which makes assignment well defined;
+* `setitem_slicewise`: `x[idx] = v` (UTPM `v`, NumPy-broadcast) puts `v[d, p, ·]` into the selected cells of
+  coefficient slice `(d, p)` and leaves every other cell of `x` untouched;
+* `setitem_constant`: `x[idx] = c` for a plain array / scalar sets the zeroth coefficient of the selected cells to
+  `c` and clears all their higher coefficients.
+
 `reshape, transpose, tile, diag, triu/tril, trace, conj/real/imag, fft/ifft, zeros/ones(-like),
-symvec/vecsym` and item assignment are checked slice-wise against NumPy on the implementation
-(partial: no theorem; `reshape`/`transpose`/`sum(axis)` additionally against the model).
+symvec/vecsym` are checked slice-wise against NumPy on the implementation
+(partial: no theorem; `reshape`/`transpose`/`sum(axis)` additionally against the model).  Item assignment of the
+real code is compared with the model functions `utSetitem`, `utSetitemConst` on every generated case.
 -/
 open AV NdArray
 namespace AV.C13
@@ -39,6 +48,30 @@ theorem sum_axis_nonneg {α} [Inhabited α] [Add α] [Zero α] (x : NdArray α) 
 
 theorem sum_axis_neg {α} [Inhabited α] [Add α] [Zero α] (x : NdArray α) (k : Nat) (hk : 0 < k) (hk2 : k ≤ x.shape.length) :
     utSumAxis x (-(k : Int)) = sumAxis x (x.shape.length - k) := utSumAxis_neg x k hk hk2
+
+theorem index_map_injective (shape : List Nat) (idx : List Idx) (s : List Nat) (m : List Nat → List Nat)
+    (h : getitemMap shape idx = some (s, m)) (j j' : List Nat) (hj : ValidIdx s j) (hj' : ValidIdx s j')
+    (he : m j = m j') : j = j' := getitemMap_injective shape idx s m h j j' hj hj' he
+
+/-- `x[idx] = v`: the selected cells of every coefficient slice receive `v`, all other cells keep their value -/
+theorem setitem_slicewise {α} [Inhabited α] (x v y : NdArray α) (D P : Nat) (s : List Nat) (idx : List Idx) (s' : List Nat)
+    (m : List Nat → List Nat) (hx : x.shape = D :: P :: s) (hm : getitemMap s idx = some (s', m))
+    (hy : utSetitem x idx v = some y) (d p : Nat) (hd : d < D) (hp : p < P) :
+    (∀ j, ValidIdx s' j → ValidIdx s (m j) → y.get (d :: p :: m j) = v.get (d :: p :: bidx (v.shape.drop 2) j))
+    ∧ (∀ i, ValidIdx s i → (∀ j, ValidIdx s' j → m j ≠ i) → y.get (d :: p :: i) = x.get (d :: p :: i)) :=
+  ⟨fun j hj hmj => utSetitem_hit x v y D P s idx s' m hx hm hy d p j hd hp hj hmj
+      (fun j' hj' he => getitemMap_injective s idx s' m hm j' j hj' hj he),
+   fun i hi hmiss => utSetitem_miss x v y D P s idx s' m hx hm hy d p i hd hp hi hmiss⟩
+
+/-- `x[idx] = c` with a plain array or scalar `c`: zeroth coefficient `c`, higher coefficients `0` -/
+theorem setitem_constant {α} [Inhabited α] [Zero α] (x c y : NdArray α) (D P : Nat) (s : List Nat) (idx : List Idx)
+    (s' : List Nat) (m : List Nat → List Nat) (hx : x.shape = D :: P :: s) (hm : getitemMap s idx = some (s', m))
+    (hy : utSetitemConst x idx c = some y) (d p : Nat) (hd : d < D) (hp : p < P) (j : List Nat)
+    (hj : ValidIdx s' j) (hmj : ValidIdx s (m j)) :
+    y.get (d :: p :: m j) = if d = 0 then c.get (bidx c.shape j) else 0 :=
+  utSetitemConst_hit x c y D P s idx s' m hx hm hy d p j hd hp hj hmj
+    (fun j' hj' he => getitemMap_injective s idx s' m hm j' j hj' hj he)
+
 
 /-- non-vacuity: `a[::-1, -1]` on a `2×3` array -/
 example : (getitemMap [2, 3] [.slice none none (some (-1)), .int (-1)]).map (fun r => (r.1, r.2 [0], r.2 [1]))
